@@ -327,7 +327,7 @@ def serialize_to_xml(elements: Iterable[Any],
         else:
             if cks and cks[0].startswith(b'<?'):
                 cks[0] = cks[0].replace(b'\'', b'"')
-            chunks.append(remove_tail(b'\n'.join(cks).decode('utf-8'), elem))
+            chunks.append(remove_tail(b''.join(cks).decode('utf-8'), elem))
 
     if not character_map:
         return (item_separator or '').join(chunks)
@@ -372,7 +372,7 @@ def serialize_to_json(elements: Iterable[Any],
                     else:
                         if chunks and chunks[0].startswith(b'<?'):
                             chunks[0] = chunks[0].replace(b'\'', b'"')
-                        return b'\n'.join(chunks).decode('utf-8')
+                        return b''.join(chunks).decode('utf-8')
 
                 elif isinstance(obj, (AttributeNode, NamespaceNode)):
                     return f'{obj.name}="{obj.string_value}"'
